@@ -635,6 +635,9 @@ func main() {
 	if run.Thorough() {
 		lens = append(lens, 127, 128, 129, 1000, 4095, 4096, 4097)
 	}
+	// sign tasks and alteration groups are interleaved so that the (large)
+	// alteration cases spread over the Coq shards
+	var signTasks, mutTasks []func()
 	for i, kb := range keys {
 		for j, n := range lens {
 			id := r.Bytes(32)
@@ -647,7 +650,28 @@ func main() {
 			if !run.Thorough() && (i+j)%2 == 1 {
 				continue
 			}
-			doSign(kb, id, r.Bytes(n), true)
+			if n >= 1000 && i >= 3 {
+				continue
+			}
+			kb, id, pl := kb, id, r.Bytes(n)
+			signTasks = append(signTasks, func() { doSign(kb, id, pl, true) })
+		}
+	}
+	ngroups := run.N(5, 24)
+	per := run.N(1, 3)
+	for g := 0; g < ngroups; g++ {
+		kb := keys[g%len(keys)]
+		id := r.Bytes(32)
+		payload := r.Bytes([]int{1, 32, 47, 5, 64, 33}[g%6])
+		mutTasks = append(mutTasks, func() { doMutGroup(kb, id, payload, genMuts(kb, id, payload, per), run.N(12, 6)) })
+	}
+	for i, mi := 0, 0; i < len(signTasks) || mi < len(mutTasks); i++ {
+		if i < len(signTasks) {
+			signTasks[i]()
+		}
+		if mi < len(mutTasks) && (i >= len(signTasks) || (i+1)*len(mutTasks)/len(signTasks) > mi) {
+			mutTasks[mi]()
+			mi++
 		}
 	}
 	// payload boundaries of cac.New (oracle only for the very large ones)
@@ -678,16 +702,6 @@ func main() {
 				doChunk("inconsistent-wrapped", bad.Address().Bytes(), bad.Data(), true)
 			}
 		}
-	}
-
-	// 3. alterations
-	ngroups := run.N(5, 24)
-	per := run.N(1, 3)
-	for g := 0; g < ngroups; g++ {
-		kb := keys[g%len(keys)]
-		id := r.Bytes(32)
-		payload := r.Bytes([]int{1, 32, 47, 5, 64, 33}[g%6])
-		doMutGroup(kb, id, payload, genMuts(kb, id, payload, per), run.N(12, 6))
 	}
 
 	// 4. malformed stream
